@@ -352,7 +352,13 @@ fn locality(t: &mut Tape, obs: &mut Obs) -> R {
         }
         _ => b = t.small_blob(40),
     }
-    let x: Vec<u8> = match t.below(6) {
+    let nx = if t.chance(250) { 6 } else { 7 };
+    let x: Vec<u8> = match t.below(nx) {
+        6 => {
+            // a suffix of 64 KiB and more (sizes around multiples of 2^16): availability computed in a narrow integer shows here
+            let n = t.pick(&[65534usize, 65535, 65536, 65537, 70000, 131071, 131072]);
+            vec![0xa5; n]
+        }
         0 => vec![],
         1 => t.small_blob(64),
         2 => b.clone(),
